@@ -2,7 +2,10 @@
    per input line.  Lines the model does not cover print "<letter> -".
    Numbers: integers, dyadic fractions p/q, or C hex floats (converted to the exact rational they denote).
    A line "N" (case not meant for the model) prints "N -".
-   The square root handed to the model is exact on perfect squares of rationals and raises otherwise. *)
+   The square root handed to the model is exact on perfect squares of rationals and raises otherwise.
+   A line "F <case>" runs the SAME extracted functions over IEEE doubles (the record of operations is a parameter of
+   the model): used for the operations whose square roots are not rational (pstrf, semi-definite solve, rank-one
+   update); results are printed as hex floats and compared with a tolerance by tools/c02.py. *)
 open C02_model
 let rec nat_of_int n = if n <= 0 then O else S (nat_of_int (n - 1))
 let rec int_of_nat = function O -> 0 | S n -> 1 + int_of_nat n
@@ -133,6 +136,84 @@ let solve_v tag ao left n a (b : qc array) =
 
 let mstr n (m : qc mat) = String.concat " " (List.concat (List.init n (fun i -> List.init n (fun j -> q_to_string (m (nat_of_int i) (nat_of_int j))))))
 
+
+(* ---------- instantiations as first-class bundles: Qc (exact) and IEEE double ---------- *)
+type 'a inst = { o : 'a ops; abs : 'a -> 'a; parse : string -> 'a; show : 'a -> string; epsm : 'a }
+let rec pow2_pos k = if k <= 0 then XH else XO (pow2_pos (k - 1))
+let iq : qc inst = { o = f; abs = qc_abs; parse = parse_num; show = q_to_string; epsm = qc_make (Zpos XH) (pow2_pos 52) }
+let ffl : float ops = { fzero = 0.0; fone = 1.0; fadd = ( +. ); fmul = ( *. ); fsub = ( -. ); fopp = (fun x -> -. x);
+  fdiv = ( /. ); finv = (fun x -> 1.0 /. x); feqb = (fun x y -> x = y); fleb = (fun x y -> x <= y); fltb = (fun x y -> x < y);
+  fsqrt = sqrt }
+let parse_float s =
+  match String.index_opt s '/' with
+  | Some k when not (String.contains s 'x') ->
+    float_of_string (String.sub s 0 k) /. float_of_string (String.sub s (k + 1) (String.length s - k - 1))
+  | _ -> float_of_string s
+let ifl : float inst = { o = ffl; abs = Float.abs; parse = parse_float; show = (fun x -> Printf.sprintf "%h" x); epsm = epsilon_float }
+
+let gmat_of (t : 'a inst) n m l = let a = Array.of_list (List.map t.parse l) in
+  if Array.length a <> n * m then failwith "size"; Array.init n (fun i -> Array.sub a (i * m) m)
+let gfmat (t : 'a inst) a : 'a mat = fun i j -> let i = int_of_nat i and j = int_of_nat j in
+  if i < Array.length a && j < Array.length a.(i) then a.(i).(j) else t.o.fzero
+let gfvec (t : 'a inst) a : 'a vec = fun i -> let i = int_of_nat i in if i < Array.length a then a.(i) else t.o.fzero
+let gvstr (t : 'a inst) n (x : 'a vec) = String.concat " " (List.map t.show (tab (nat_of_int n) x))
+let gmstr (t : 'a inst) n m (a : 'a mat) = String.concat " " (List.concat (List.init n (fun i -> List.init m (fun j -> t.show (a (nat_of_int i) (nat_of_int j))))))
+let psbs = nat_of_int 20      (* block_size of pstrf *)
+
+(* operations that exist for both instantiations *)
+let handle_g (t : 'a inst) cmd g =
+  match cmd, g with
+  | "P", [[_ao; ns]; al] ->
+    let n = int_of_string ns in
+    let (((r, l), p), _) = pstrf_full t.o t.abs psbs (nat_of_int n) t.epsm (gfmat t (gmat_of t n n al)) in
+    Some (Printf.sprintf "P OK %d ; %s ; %s" (int_of_nat r) (gmstr t n n l) (pstr n p))
+  | "U", [[ao; ns; alpha; beta]; al; vl] ->
+    (* cholesky_decomposition d(A); d.update(alpha, beta, v); d.lower_factor() *)
+    let n = int_of_string ns in let nn = nat_of_int n in
+    (match potrf_blocked t.o bs bs false (orient_of ao) nn (gfmat t (gmat_of t n n al)) with
+     | BOk l ->
+       (match chol_update t.o nn (t.parse alpha) (t.parse beta) l (gfvec t (Array.of_list (List.map t.parse vl))) with
+        | UOk (l2, _) -> Some ("U OK " ^ gmstr t n n l2)
+        | UExc (_, _) -> Some "U EXC")
+     | _ -> Some "U -")
+  | "S", [["semi"; side; ao; rhs; _bo; ns; ms]; al; bl] ->
+    (* solve(A,B,symm_semi_pos_def,side): the vector model on every column (left) / row (right) of B *)
+    let n = int_of_string ns and m = int_of_string ms in
+    let nn = nat_of_int n and o = orient_of ao in
+    (match semi_decompose t.o t.abs psbs bs bs o nn t.epsm (gfmat t (gmat_of t n n al)) with
+     | None -> Some "S EXC"
+     | Some d ->
+       let sol v = semi_solve_with t.o o nn d.sd_rank d.sd_factor d.sd_perm d.sd_chol v in
+       let out xs = Some ("S OK " ^ xs) in
+       if rhs = "v" then (match sol (gfvec t (Array.of_list (List.map t.parse bl))) with None -> Some "S EXC" | Some x -> out (gvstr t n x))
+       else
+         let left = (side = "L") in
+         let b = if left then gmat_of t n m bl else gmat_of t m n bl in
+         let vecs = if left then List.init m (fun c -> gfvec t (Array.init n (fun i -> b.(i).(c)))) else List.init m (fun r -> gfvec t b.(r)) in
+         let xs = List.map sol vecs in
+         if List.exists (fun x -> x = None) xs then Some "S EXC"
+         else
+           let xs = List.map (function Some x -> Array.of_list (tab nn x) | None -> [||]) xs |> Array.of_list in
+           out (String.concat " " (if left then List.concat (List.init n (fun i -> List.init m (fun c -> t.show xs.(c).(i))))
+                                   else List.concat (List.init m (fun r -> List.init n (fun i -> t.show xs.(r).(i)))))))
+  | "Z", [["semi"; ao; ns; ms]; al; bl] ->
+    let n = int_of_string ns and m = int_of_string ms in
+    let nn = nat_of_int n and o = orient_of ao in
+    (match semi_decompose t.o t.abs psbs bs bs o nn t.epsm (gfmat t (gmat_of t n n al)) with
+     | None -> Some "Z EXC"
+     | Some d ->
+       let b = gmat_of t n m bl in
+       let sol c = semi_solve_with t.o o nn d.sd_rank d.sd_factor d.sd_perm d.sd_chol (gfvec t (Array.init n (fun i -> b.(i).(c)))) in
+       let xs = List.init m sol in
+       if List.exists (fun x -> x = None) xs then Some "Z EXC"
+       else
+         let xs = List.map (function Some x -> Array.of_list (tab nn x) | None -> [||]) xs |> Array.of_list in
+         let xl = String.concat " " (List.concat (List.init n (fun i -> List.init m (fun c -> t.show xs.(c).(i)))))
+         and yl = String.concat " " (List.concat (List.init m (fun r -> List.init n (fun i -> t.show xs.(r).(i)))))
+         and x0 = String.concat " " (List.init n (fun i -> t.show xs.(0).(i))) in
+         Some (Printf.sprintf "Z OK %s ; %s ; %s ; %s ; %d" xl yl x0 x0 (int_of_nat d.sd_rank)))
+  | _ -> None
+
 let handle line =
   let toks = List.filter (fun x -> x <> "") (String.split_on_char ' ' line) in
   match toks with
@@ -140,6 +221,10 @@ let handle line =
   | cmd :: rest ->
     (try
       let g = split_groups rest in
+      if cmd = "F" then (match rest with
+        | c2 :: r2 -> (match handle_g ifl c2 (split_groups r2) with Some s -> s | None -> c2 ^ " -")
+        | [] -> "?") else
+      match handle_g iq cmd g with Some s -> s | None ->
       match cmd, g with
       | "S", [[tag; side; ao; rhs; _bo; ns; ms]; al; bl] ->
         let n = int_of_string ns and m = int_of_string ms in
@@ -183,7 +268,9 @@ let handle line =
          | Some x, Some y, Some xv, Some yv -> Printf.sprintf "Z OK %s ; %s ; %s ; %s" x y xv yv
          | _ -> "Z EXC")
       | _ -> cmd ^ " -"
-    with Not_found -> cmd ^ " -" | No_sqrt -> cmd ^ " NOSQRT" | Failure _ -> cmd ^ " -")
+    with e ->
+      let c = if cmd = "F" then (match rest with c2 :: _ -> c2 | [] -> "?") else cmd in
+      (match e with Not_found -> c ^ " -" | No_sqrt -> c ^ " NOSQRT" | Failure _ -> c ^ " -" | e -> raise e))
 
 let () =
   let ic = open_in Sys.argv.(1) in
